@@ -103,6 +103,19 @@ func (e editSpec) apply(b []byte) []byte {
 			}
 			i += j + 1
 		}
+	case "merge-records": // FASTA: the header lines number At .. At+Len-1 (from 0) are dropped, so that their records become part of the one before
+		var out []byte
+		h := 0
+		for _, line := range bytes.SplitAfter(b, []byte("\n")) {
+			if len(line) > 0 && line[0] == '>' {
+				h++
+				if h-1 >= e.At && h-1 < e.At+e.Len {
+					continue
+				}
+			}
+			out = append(out, line...)
+		}
+		b = out
 	case "pad-to": // trailing blank lines up to an exact file size
 		for len(b) < e.Len {
 			b = append(b, '\n')
